@@ -34,7 +34,9 @@ class IkeSaController:
         return next(x for x in self.ike_sas if x.my_spi == spi)
 
     def _get_ike_sa_by_peer_addr(self, peer_addr):
-        return next(x for x in self.ike_sas if x.peer_addr == peer_addr)
+        # a half-open responder IKE_SA may never complete (anybody can start one): it is not re-used for our own requests
+        return next(x for x in self.ike_sas if x.peer_addr == peer_addr
+                    and (x.is_initiator or x.state >= IkeSa.State.ESTABLISHED))
 
     def _get_ike_sa_by_child_sa_spi(self, spi):
         for ike_sa in self.ike_sas:
